@@ -323,7 +323,20 @@ EvProbe ==
                 \* the mirror's ticks are what EVERY view of it says: read state by
                 \* state (Tick / Clock) they are the ticks Time() reports
                 When(q /\ Len(Line.mtk) = Len(Line.mt) /\ Line.mtk # Line.mt, "TickViewsAgree"),
-                When(Line.quiescent /\ (Line.blocked > 0 \/ Line.syncopen > 0), "NoForeverBlock")}
+                When(Line.quiescent /\ (Line.blocked > 0 \/ Line.syncopen > 0), "NoForeverBlock"),
+                \* the pusher is live (RpcSync.tla PushDeliveredAtQuiescence): with the REAL
+                \* debounce and the REAL push ticker (interval > 0; a forced schedule plays
+                \* the ticker itself), both sides handshaken and nothing open, no snapshot
+                \* of the source is newer than what lastPushData says was exported - a
+                \* change debounced by "too often" was delivered by the ticker, on the
+                \* first connection and after every reconnect.  (Per-mutation mode is left
+                \* to ConvergedAtQuiescence: DataQueue() empties dataLatest, the log cannot
+                \* tell "nothing newer" from "newer, already sent in the chain".)
+                When(Line.quiescent /\ cfg.ticker /\ ~cfg.mutations /\ Line.cready /\ Line.sready /\
+                     Line.blocked = 0 /\ Line.syncopen = 0 /\ pendN = None /\
+                     lastPush # None /\ lastSnap # None /\
+                     (lastPush.t # lastSnap.t \/ lastPush.q # lastSnap.q),
+                     "PushDeliveredAtQuiescence")}
          d == When(q /\ mirror # None /\ m.t # mirror.t, "probe.mirror")
      IN /\ viol' = viol \cup v
         /\ drift' = drift \cup d
